@@ -249,11 +249,15 @@ class MuSigTapScript(TapScript):
         xonlys = sorted([p.xonly() for p in points])
         self.points = [S256Point.parse_xonly(b) for b in xonlys]
         self.commitment = hash_keyagglist(b"".join(xonlys))
+        # the second distinct public key has a coefficient of 1 (none when all keys are equal);
+        # the coefficient is a function of the key, so equal keys get equal coefficients
+        second = next((b for b in xonlys if b != xonlys[0]), None)
         self.coefs = [
-            big_endian_to_int(hash_keyaggcoef(self.commitment + b)) for b in xonlys
+            1
+            if b == second
+            else big_endian_to_int(hash_keyaggcoef(self.commitment + b))
+            for b in xonlys
         ]
-        # the second unique public key has a coefficient of 1
-        self.coefs[1] = 1
         self.coef_lookup = {b: c for c, b in zip(self.coefs, xonlys)}
         # aggregate point
         self.point = S256Point.combine([c * p for c, p in zip(self.coefs, self.points)])
